@@ -150,6 +150,27 @@ def run(ctx, drv):
         ctx.case(reqs[-1], True)
         ctx.count("adversarial_tiny_pairs")
 
+    # same-box pairs one ulp apart at exact decimal multiples of epsilon: floor(o/eps)*eps can round ABOVE o there, so the
+    # in-box offset is slightly negative and its square is not monotone; the Pareto-better one must still never lose
+    kmax = 120 if ctx.quick() else 1500
+    for e in (0.1, 0.01, 0.05, 0.2, 0.3):
+        for kk in range(-kmax, kmax + 1):
+            for mx in (False, True):
+                dirs = (mx, False)
+                p = mk_problem(2, dirs, False)
+                o = kk * e if kk % 2 else float(repr(round(kk * e, 10)))       # the product and the decimal literal
+                other = rng.choice([0.5, 0.25, e * 3])
+                a = mk_sol(p, [o, other])
+                b = mk_sol(p, [math.nextafter(o, math.inf if not mx else -math.inf), other])     # one ulp worse in objective 0
+                dom = C.EpsilonDominance([e])
+                r, r2 = call(dom.compare, a, b), call(dom.compare, b, a)
+                inp = {"maximise": list(dirs), "constrained": False, "epsilons": [e], "a": list(a.objectives), "cv_a": 0.0, "b": list(b.objectives), "cv_b": 0.0}
+                ask(f"epsF 0 {dirs_w(dirs)} 1 {wf(e)} {sol_f(0, a)} {sol_f(1, b)}",
+                    lambda g, obs=f"{r} {int(dom.same_box(a, b))}", inp=inp: None if g == obs else ctx.disagree("epsCompare/sameBox Float instance", inp, obs, g))
+                check_pareto(ctx, False, dirs, [e], a, b, r, r2, inp)
+                ctx.case(reqs[-1], True)
+                ctx.count("decimal_multiple_ulp_pairs")
+
     # error branches: Python raises, the driver must answer with the same error kind
     for eps, objs, kind in [([], [1.0], "err:index"), ([0.0], [1.0], "err:zerodiv"), ([0.5], [math.inf], "err:domain"), ([0.5], [-math.inf], "err:domain")]:
         p = mk_problem(1, (False,), False)
